@@ -47,6 +47,9 @@ class SdoServer:
             return
         coe, = struct.unpack_from("<H", body)
         service = coe >> 12
+        if service == 8:
+            self.info(term, body[2:])
+            return
         if service != 2:
             self.log.append(("coe-service", service))
             return
@@ -67,6 +70,43 @@ class SdoServer:
                           mtype | (self.counter << 4))
         self.counter = self.counter % 7 + 1
         term.post_mail(hdr + body, delay)
+
+    # ------------------------------------------------------ SDO information
+    def info(self, term, b):
+        """SDO information service (ETG.1000.6 5.6.3): "get OD list".  The
+        answer goes out in as many fragments as the input mailbox needs, each
+        with opcode 2, the "incomplete" bit on all but the last and the
+        number of fragments that still follow (16 bits)."""
+        if len(b) < 4:
+            self.errors.append("short SDO information request")
+            return
+        opcode = b[0] & 0x7f
+        self.log.append(("info", opcode))
+        if opcode != 1 or len(b) < 6:
+            # error response: opcode 7, abort code
+            self._post(term, 3, struct.pack("<HBxHI", 8 << 12, 7, 0,
+                                            ABORT_UNKNOWN_CMD), 0)
+            return
+        listtype, = struct.unpack_from("<H", b, 4)
+        data = struct.pack("<H", listtype) + b"".join(
+            struct.pack("<H", i) for i in self.od_list(listtype))
+        room = self.term_in_size - 12
+        chunks = [data[i:i + room] for i in range(0, len(data), room)] \
+            or [b""]
+        for k, chunk in enumerate(chunks):
+            left = len(chunks) - 1 - k
+            n = self.n
+            self.n += 1
+            self._post(term, 3, struct.pack(
+                "<HBxH", 8 << 12, 2 | (0x80 if left else 0), left) + chunk,
+                self.delays[n % len(self.delays)])
+
+    def od_list(self, listtype):
+        if listtype == 0:
+            return [len(self.od_indexes)] * 5
+        return list(self.od_indexes)
+
+    od_indexes = ()
 
     def abort(self, index, sub, code):
         self.upload = self.download = None
